@@ -1010,3 +1010,12 @@ package agent
 //@ census[C26] FinalizePartial in -
 //@ census[C26] CleanupPartial in -
 //@ census[C26] UpdatePartialProgress in -
+
+// ---- C20 / C19: the requested address is the wire address, byte for byte ----
+
+//@ func addressToString
+//@ prop C20 C19
+//@ check bounds
+//@ ensures addrType == 3 && len(addr) > 0 ==> len(result) == len(addr) - 1 && forall i in 0..len(result): result[i] == addr[1 + i]
+//@ ensures addrType == 3 && len(addr) == 0 ==> len(result) == 0
+//@ note the domain form of a requested address (which carries forward keys, file-transfer, shell, UDP and ICMP markers as well as host names) is exactly the bytes after the length byte: no trimming, case folding or normalisation happens before the key or name is looked up
